@@ -677,10 +677,11 @@ func c17(c *core.Ctx) {
 	})
 	// ... and all 5 x 3 hand-made combinations
 	// a dial that fails is reported as it is: one attempt, on the transport the URI denotes, its error handed back
-	c.SectionSerial("dial-failure", 12, func(i int64, _ *gen.Rand) {
+	c.SectionSerial("dial-failure", 24, func(i int64, _ *gen.Rand) {
 		raw := []string{"stun:example.org", "turn:example.org", "turn:example.org?transport=tcp", "stuns:example.org", "turns:example.org?transport=tcp", "turn:192.0.2.1:9?transport=udp"}[i%6]
 		_ = raw
-		errs := []error{errors.New("network is unreachable"), &net.OpError{Op: "dial", Net: "udp", Err: os.NewSyscallError("connect", []error{syscall.ENETUNREACH, syscall.EAFNOSUPPORT, syscall.EHOSTUNREACH}[i%3])}}
+		errs := []error{errors.New("network is unreachable"), &net.OpError{Op: "dial", Net: "udp", Err: os.NewSyscallError("connect", syscall.ENETUNREACH)},
+			&net.OpError{Op: "dial", Net: "udp6", Err: os.NewSyscallError("socket", syscall.EAFNOSUPPORT)}, &net.OpError{Op: "dial", Net: "udp", Err: os.NewSyscallError("connect", syscall.EHOSTUNREACH)}}
 		if i%6 == 5 {
 			raw = "turn:[2001:db8::9]:9?transport=udp" // an IPv6 literal the host cannot reach
 		}
